@@ -79,22 +79,11 @@ Definition imp_commit (f : features) (s : state) (t : tx) : state + ierr :=
 Definition imp_upsert_accounts (f : features) (now : Z) (s : state) (t : tx) (amd : list (addr * meta)) : state :=
   upsert_tx_accounts f now s t amd.
 
-(* UpdateAccountsMetadata({a: md}, d) *)
-Definition imp_acc_updated (d : Z) (md : meta) (y : account) : account :=
-  {| a_addr := a_addr y; a_meta := mmerge (a_meta y) md; a_first := Z.min d (a_first y); a_ins := a_ins y; a_upd := d |}.
+(* SET_METADATA on an account: since the repair, importLog calls UpsertAccounts as saveAccountMetadata does, with
+   first_usage = insertion_date = updated_at = the log date [d] (before: UpdateAccountsMetadata({a: md}, d), whose
+   ON CONFLICT ... WHERE NOT metadata @> excluded.metadata skipped the lowering of first_usage) *)
 Definition imp_acc_set (hist_on : bool) (d : Z) (st : list account * list ahist) (a : addr) (md : meta) : list account * list ahist :=
-  let '(accs, hist) := st in
-  match find_account accs a with
-  | Some x =>
-    if mcontains (a_meta x) md then (accs, hist)
-    else
-      let x' := imp_acc_updated d md x in
-      (map (fun y => if String.eqb (a_addr y) a && negb (mcontains (a_meta y) md) then imp_acc_updated d md y else y) accs,
-       if hist_on then hist ++ [{| ah_addr := a; ah_rev := next_rev_a hist a; ah_date := a_upd x'; ah_meta := a_meta x' |}] else hist)
-  | None =>
-    let x' := {| a_addr := a; a_meta := md; a_first := d; a_ins := d; a_upd := d |} in
-    (accs ++ [x'], if hist_on then hist ++ [{| ah_addr := a; ah_rev := 1; ah_date := a_ins x'; ah_meta := md |}] else hist)
-  end.
+  upsert_account hist_on d st a md (Some d) (Some d) (Some d).
 
 (* DeleteAccountMetadata(a, k): dated transaction_date(), i.e. [now] = the time of the import *)
 Definition imp_acc_del (hist_on : bool) (now : Z) (s : state) (a : addr) (k : str) : state :=
